@@ -343,6 +343,10 @@ func instrument(f xmpp.StreamFeature, res *negResult) xmpp.StreamFeature {
 }
 
 func negotiate(conn *nc.Conn, recv bool, f xmpp.StreamFeature) (res negResult) {
+	return negotiateCtx(context.Background(), conn, recv, f)
+}
+
+func negotiateCtx(ctx context.Context, conn *nc.Conn, recv bool, f xmpp.StreamFeature) (res negResult) {
 	res.conn = conn
 	feat := instrument(f, &res)
 	neg := xmpp.NewNegotiator(func(*xmpp.Session, *xmpp.StreamConfig) xmpp.StreamConfig {
@@ -352,9 +356,9 @@ func negotiate(conn *nc.Conn, recv bool, f xmpp.StreamFeature) (res negResult) {
 		var s *xmpp.Session
 		var err error
 		if recv {
-			s, err = xmpp.ReceiveSession(context.Background(), conn, xmpp.Secure, neg)
+			s, err = xmpp.ReceiveSession(ctx, conn, xmpp.Secure, neg)
 		} else {
-			s, err = xmpp.NewSession(context.Background(), jid.MustParse("example.net"), jid.MustParse("user@example.net"), conn, xmpp.Secure, neg)
+			s, err = xmpp.NewSession(ctx, jid.MustParse("example.net"), jid.MustParse("user@example.net"), conn, xmpp.Secure, neg)
 		}
 		res.sessErr = err
 		if s != nil {
@@ -375,6 +379,8 @@ func errClass(res negResult, t *trace) string {
 		return "nil"
 	case errors.Is(err, nc.ErrWrite):
 		return "write"
+	case errors.Is(err, context.Canceled):
+		return "ctx"
 	case errors.Is(err, sasl.ErrAuthn):
 		return "authnerr"
 	case t.lastErr != nil && errors.Is(err, t.lastErr):
@@ -401,6 +407,12 @@ type cliCase struct {
 	// allScripted: every configured mechanism is a scripted one, whatever its name
 	// (line operation "clis")
 	allScripted bool
+	// hostile environment (line operation "clie"): wfail > 0: the wfail-th SASL element the
+	// initiator writes, and every later write, fails; cancel >= 0: the context is cancelled
+	// when that many peer elements have been delivered (0: with the features list)
+	env    bool
+	wfail  int
+	cancel int
 }
 
 func cliEventXML(ev string) (string, error) {
@@ -438,6 +450,16 @@ func fieldSteps(st []step) string {
 }
 
 func (c cliCase) line() string {
+	if c.env {
+		b, k := "-", "-"
+		if c.wfail > 0 {
+			b = fmt.Sprint(c.wfail - 1)
+		}
+		if c.cancel >= 0 {
+			k = fmt.Sprint(c.cancel)
+		}
+		return fmt.Sprintf("clie %s %s %s %s %s %s", b, k, encNames(c.mechs), encNames(c.adv), fieldSteps(c.steps), common.Join(c.peer, ","))
+	}
 	op := "cli"
 	if c.allScripted {
 		op = "clis"
@@ -459,7 +481,15 @@ func runClient(r *common.Run, c cliCase, class string) error {
 		adv.WriteString("<mechanism>" + nc.Esc(a) + "</mechanism>")
 	}
 	adv.WriteString("</mechanisms></stream:features>")
-	chunks := []nc.Chunk{nc.S(nc.Header("jabber:client", "sid1", "example.net", "user@example.net")), nc.S(adv.String())}
+	ctx, cancelCtx := context.WithCancel(context.Background())
+	defer cancelCtx()
+	advXML := adv.String()
+	chunks := []nc.Chunk{nc.S(nc.Header("jabber:client", "sid1", "example.net", "user@example.net")), {Dyn: func([]byte) []byte {
+		if c.env && c.cancel == 0 {
+			cancelCtx()
+		}
+		return []byte(advXML)
+	}}}
 	var delivered []string // events in delivery order
 	restarted := func(w []byte) bool { return bytes.Count(w, []byte("<?xml")) > 1 }
 	nEvChunks := len(c.peer)
@@ -488,6 +518,9 @@ func runClient(r *common.Run, c cliCase, class string) error {
 				return nil
 			}
 			delivered = append(delivered, ev)
+			if c.env && c.cancel == len(delivered) {
+				cancelCtx()
+			}
 			return []byte(x)
 		}})
 	}
@@ -504,7 +537,11 @@ func runClient(r *common.Run, c cliCase, class string) error {
 		}
 	}
 	conn := nc.NewConn(chunks...)
-	res := negotiate(conn, false, xmpp.SASL("", "secret", mechs...))
+	if c.env && c.wfail > 0 {
+		// write 1 is the stream header
+		conn.FailWriteCall = 1 + c.wfail
+	}
+	res := negotiateCtx(ctx, conn, false, xmpp.SASL("", "secret", mechs...))
 	if c.dyn != nil {
 		c.peer = delivered
 	}
@@ -1207,6 +1244,20 @@ func Run(r *common.Run) error {
 		_ = runClient(r, cliCase{mechs: []string{"SCRAM-SHA-1", "PLAIN"}, adv: []string{"PLAIN", "SCRAM-SHA-1"}, dyn: scramPeer(shape)}, fmt.Sprintf("cli-scram-shape%d", shape))
 	}
 
+	// ---- client role: write failures and cancellation at every position ----
+	for _, sc := range scripts {
+		for _, peer := range [][]string{{}, {"s-"}, {"cv01"}, {"cv01", "s-"}, {"cv01", "cv02", "s-"}, {"cv01", "cv02", "cv03", "s-"}, {"sv01"}, {"cv01", "f"}, {"cbad"}} {
+			for wf := 0; wf <= 4; wf++ {
+				for k := -1; k <= 3; k++ {
+					if wf == 0 && k < 0 {
+						continue
+					}
+					_ = runClient(r, cliCase{mechs: []string{"M1"}, adv: []string{"M1"}, steps: sc, peer: peer, env: true, wfail: wf, cancel: k}, "cli-env")
+				}
+			}
+		}
+	}
+
 	// ---- client role: random longer scripts ----
 	nr := r.Pick(1500, 20000)
 	for i := 0; i < nr; i++ {
@@ -1320,6 +1371,20 @@ func replayLine(r *common.Run, l string) error {
 		return out, nil
 	}
 	switch {
+	case f[0] == "clie" && len(f) == 7:
+		st, err := steps(f[5])
+		if err != nil {
+			return err
+		}
+		c := cliCase{mechs: decNames(f[3]), adv: decNames(f[4]), steps: st, peer: list(f[6]), env: true, cancel: -1}
+		if f[1] != "-" {
+			fmt.Sscanf(f[1], "%d", &c.wfail)
+			c.wfail++
+		}
+		if f[2] != "-" {
+			fmt.Sscanf(f[2], "%d", &c.cancel)
+		}
+		return runClient(r, c, "replay")
 	case (f[0] == "cli" || f[0] == "clis") && len(f) == 5:
 		st, err := steps(f[3])
 		if err != nil {
